@@ -182,13 +182,16 @@ class Quasisep(Kernel):
     def evaluate(self, X1: JAXArray, X2: JAXArray) -> JAXArray:
         """The kernel evaluated via the quasiseparable representation"""
         Pinf = self.stationary_covariance()
-        h1 = self.observation_model(X1)
-        h2 = self.observation_model(X2)
-        return jnp.where(
-            self.coord_to_sortable(X1) < self.coord_to_sortable(X2),
-            h2 @ Pinf @ self.transition_matrix(X1, X2) @ h1,
-            h1 @ Pinf @ self.transition_matrix(X2, X1) @ h2,
-        )
+        # Put the two coordinates in order before building the transition matrix:
+        # evaluating it for the reversed pair as well (and masking the result)
+        # overflows when the separation is large compared to the kernel's time
+        # scale, which turns reverse-mode derivatives into NaNs
+        flip = self.coord_to_sortable(X1) < self.coord_to_sortable(X2)
+        Xa = jax.tree_util.tree_map(lambda a, b: jnp.where(flip, a, b), X1, X2)
+        Xb = jax.tree_util.tree_map(lambda a, b: jnp.where(flip, a, b), X2, X1)
+        ha = self.observation_model(Xa)
+        hb = self.observation_model(Xb)
+        return hb @ Pinf @ self.transition_matrix(Xa, Xb) @ ha
 
     def evaluate_diag(self, X: JAXArray) -> JAXArray:
         """For quasiseparable kernels, the variance is simple to compute"""
